@@ -324,6 +324,7 @@ func runC08(t *testing.T, sc scenario, ch *sched.Chooser) (res sched.Result) {
 		e.ClockOn = func() bool { return elapsed() < horizon }
 		// regularity bookkeeping
 		slow := map[string]bool{}
+		probing := map[string]bool{}        // a readiness probe of that lifecycler is in flight
 		readyLatched := map[string]bool{}   // lifecyclers whose readiness probe has passed once (it then keeps passing: documented latch)
 		startedAt := map[string]time.Time{} // when each lifecycler was actually started (the schedule may delay it)
 		stopAsked := map[string]bool{}
@@ -394,7 +395,18 @@ func runC08(t *testing.T, sc scenario, ch *sched.Chooser) (res sched.Result) {
 			a := a
 			in := insts[a.who]
 			e.Go(fmt.Sprintf("x%d-%s:%s", ai, a.kind, a.who), func() {
-				sched.YieldUntil("at", func() bool { return elapsed() >= a.at })
+				sched.YieldUntil("at", func() bool {
+					switch a.kind {
+					case "ready":
+						// CheckReady holds a native mutex of the lifecycler across its store read: two probes of one lifecycler
+						// in flight together would leave the second blocked where the scheduler cannot see it
+						return elapsed() >= a.at && !probing[a.who]
+					case "change-state":
+						// a request made while the service is still starting is answered from a natively racing state check
+						return elapsed() >= a.at && in.svc.State() != services.New && in.svc.State() != services.Starting
+					}
+					return elapsed() >= a.at
+				})
 				switch a.kind {
 				case "stop":
 					stopAsked[a.who] = true
@@ -407,7 +419,9 @@ func runC08(t *testing.T, sc scenario, ch *sched.Chooser) (res sched.Result) {
 						_ = in.basic.ChangeReadOnlyState(context.Background(), a.kind == "readonly-on")
 					}
 				case "ready":
+					probing[a.who] = true
 					err := in.checkReady(context.Background())
+					probing[a.who] = false
 					cur := descOf(st.Peek(ringKey))
 					ent, ok := cur.Ingesters[a.who]
 					if err == nil && readyLatched[a.who] {
@@ -556,9 +570,11 @@ func scenariosC08() []scenario {
 		{name: "autoforget-vs-joining", lcs: []lcSpec{{id: "a", basic: true, autoForget: 8 * time.Second, heartbeat: 2 * time.Second}, {id: "b", joinAfter: 1500 * time.Millisecond, observe: 3 * time.Second, heartbeat: 5250 * time.Millisecond}}, horizon: 9 * time.Second}, // b's heartbeat off the half-second grid: its observe timer (join commit + 3 s) can never fall due together with a tick
 		// several own-entry updates within one second, then a heartbeat: the published heartbeat time never goes back
 		{name: "basic-readonly-burst", lcs: []lcSpec{{id: "a", basic: true, heartbeat: 3 * time.Second}}, actions: []action{{at: 500 * time.Millisecond, kind: "readonly-on", who: "a"}, {at: 500 * time.Millisecond, kind: "readonly-off", who: "a"}, {at: 500 * time.Millisecond, kind: "readonly-on", who: "a"}, {at: 500 * time.Millisecond, kind: "readonly-off", who: "a"}}, horizon: 8 * time.Second},
-		// external state-change requests (Lifecycler.ChangeState) in every state: granted along the documented edges only
-		{name: "full-change-state-pending", lcs: []lcSpec{{id: "a", joinAfter: 4250 * time.Millisecond, heartbeat: 3 * time.Second}}, actions: []action{{at: 500 * time.Millisecond, kind: "change-state", who: "a", arg: "LEAVING"}, {at: 1 * time.Second, kind: "change-state", who: "a", arg: "JOINING"}, {at: 1500 * time.Millisecond, kind: "change-state", who: "a", arg: "LEAVING"}, {at: 2 * time.Second, kind: "change-state", who: "a", arg: "PENDING"}}, horizon: 9 * time.Second},
-		{name: "full-change-state-active", lcs: []lcSpec{{id: "a", heartbeat: 3 * time.Second}}, actions: []action{{at: 1 * time.Second, kind: "change-state", who: "a", arg: "PENDING"}, {at: 1500 * time.Millisecond, kind: "change-state", who: "a", arg: "JOINING"}, {at: 2 * time.Second, kind: "change-state", who: "a", arg: "LEAVING"}, {at: 2500 * time.Millisecond, kind: "change-state", who: "a", arg: "ACTIVE"}, {at: 4 * time.Second, kind: "change-state", who: "a", arg: "PENDING"}}, horizon: 8 * time.Second},
+		// external state-change requests (Lifecycler.ChangeState) in every state: granted along the documented edges only.
+		// Heartbeat / join timers lie beyond the latest instant a (delayed) request can still be in flight: a request
+		// waiting for the loop together with a timer that has fired would leave the pick to Go's select
+		{name: "full-change-state-pending", lcs: []lcSpec{{id: "a", joinAfter: 6250 * time.Millisecond, heartbeat: 9250 * time.Millisecond}}, actions: []action{{at: 500 * time.Millisecond, kind: "change-state", who: "a", arg: "LEAVING"}, {at: 1 * time.Second, kind: "change-state", who: "a", arg: "JOINING"}, {at: 1500 * time.Millisecond, kind: "change-state", who: "a", arg: "LEAVING"}, {at: 2 * time.Second, kind: "change-state", who: "a", arg: "PENDING"}}, horizon: 9 * time.Second},
+		{name: "full-change-state-active", lcs: []lcSpec{{id: "a", heartbeat: 7250 * time.Millisecond}}, actions: []action{{at: 1 * time.Second, kind: "change-state", who: "a", arg: "PENDING"}, {at: 1500 * time.Millisecond, kind: "change-state", who: "a", arg: "JOINING"}, {at: 2 * time.Second, kind: "change-state", who: "a", arg: "LEAVING"}, {at: 2500 * time.Millisecond, kind: "change-state", who: "a", arg: "ACTIVE"}, {at: 4 * time.Second, kind: "change-state", who: "a", arg: "PENDING"}}, horizon: 8 * time.Second},
 		// readiness with ring-health: a member that shows up (PENDING, then JOINING) after the probed lifecycler's last own write
 		{name: "ready-vs-late-joiner", lcs: []lcSpec{{id: "a", ringHealth: true}, {id: "b", startAt: 2 * time.Second, joinAfter: 1500 * time.Millisecond, observe: 2 * time.Second}}, actions: []action{{at: 2500 * time.Millisecond, kind: "ready", who: "a"}, {at: 4 * time.Second, kind: "ready", who: "a"}, {at: 7 * time.Second, kind: "ready", who: "a"}}, horizon: 9 * time.Second},
 		{name: "mixed", lcs: []lcSpec{{id: "a", joinAfter: 1500 * time.Millisecond}, {id: "b", basic: true}}, horizon: 14 * time.Second},
